@@ -85,8 +85,8 @@ class RefLexer:
                         idx += 1
                 self.sets[it[1]] = rules
         if not self.order:
-            self.sets[''] = unnamed
-            self.init = ''
+            self.sets['_'] = unnamed
+            self.init = '_'
         else:
             self.init = 'Init'
 
